@@ -81,6 +81,8 @@ func c05Files(root string) {
 	must(os.MkdirAll(filepath.Join(root, "Drop Box", "inner"), 0755))
 	must(os.WriteFile(filepath.Join(root, "Drop Box", "inner", "deep-secret.txt"), []byte("dropped deeper"), 0644))
 	must(os.MkdirAll(filepath.Join(root, "Uploads", "sub"), 0755))
+	must(os.MkdirAll(filepath.Join(root, "holder", "team drop box"), 0755))
+	must(os.WriteFile(filepath.Join(root, "holder", "team drop box", "s.txt"), []byte("dropped too"), 0644))
 	// entries whose stored information fork claims the other kind: the governing privilege follows
 	// what the entry *is* in the file tree, not what client-supplied metadata says
 	must(os.WriteFile(filepath.Join(root, "odd.txt"), []byte("odd"), 0644))
@@ -450,6 +452,16 @@ var c05Kinds = []c05Kind{
 	}, "deep-secret.txt"},
 	{"upload-file-uploads-subfolder", []int{ref.PUploadFile}, func(x c05Ctx) ref.Tx {
 		return ref.Tx{Type: ref.TUploadFile, Fields: []ref.Fld{ref.FS(ref.FFileName, "new.txt"), ref.F(ref.FFilePath, ref.PathBytes("Uploads", "sub")), ref.F32(ref.FTransferSize, 100)}}
+	}, ""},
+	// a folder download sends what a file list would show, item by item
+	{"download-folder-drop-box", []int{ref.PDownloadFolder, ref.PViewDropBoxes}, func(x c05Ctx) ref.Tx {
+		return ref.Tx{Type: ref.TDownloadFldr, Fields: []ref.Fld{ref.FS(ref.FFileName, "Drop Box")}}
+	}, ""},
+	{"download-folder-inside-drop-box", []int{ref.PDownloadFolder, ref.PViewDropBoxes}, func(x c05Ctx) ref.Tx {
+		return ref.Tx{Type: ref.TDownloadFldr, Fields: []ref.Fld{ref.FS(ref.FFileName, "inner"), ref.F(ref.FFilePath, ref.PathBytes("Drop Box"))}}
+	}, ""},
+	{"download-folder-holding-a-drop-box", []int{ref.PDownloadFolder, ref.PViewDropBoxes}, func(x c05Ctx) ref.Tx {
+		return ref.Tx{Type: ref.TDownloadFldr, Fields: []ref.Fld{ref.FS(ref.FFileName, "holder")}}
 	}, ""},
 	{"list-nested-drop-box", []int{ref.PViewDropBoxes}, func(x c05Ctx) ref.Tx {
 		return ref.Tx{Type: ref.TGetFileNameList, Fields: []ref.Fld{ref.F(ref.FFilePath, ref.PathBytes("other", "my drop box"))}}
